@@ -63,6 +63,7 @@ Absent   == [st |-> "absent", ver |-> NoVer, asked |-> TRUE]
 Torn     == [st |-> "torn", ver |-> NoVer, asked |-> TRUE]
 FullOf(v) == [st |-> "full", ver |-> v, asked |-> TRUE]
 Unasked(v) == [st |-> "full", ver |-> v, asked |-> FALSE]
+Blocked  == [st |-> "blocked", ver |-> NoVer, asked |-> TRUE]     \* something that is not a file sits at the index path (a directory): unreadable AND unwritable
 NoTree   == [live |-> FALSE, loc |-> "-", ver |-> NoVer, rpc |-> 0, src |-> [m \in ImageSet |-> "none"],
              cver |-> [m \in ImageSet |-> NoVer], copyOf |-> 0, loaded |-> {}, mutated |-> {}]
 Quiet    == [op |-> "init"]
@@ -78,7 +79,7 @@ Init == /\ store = [l \in Locs |-> [ver |-> 0, dmg |-> [f \in Files |-> "ok"]]]
 \* ------------------------------------------------------------------ read_cache, as the code does it
 \* local.is_file() -> decode(local) ; elif remote in mapper -> decode(remote) ; undecodable -> miss ; else miss.
 \* An unusable user cache dir makes local.is_file() false.
-LocalSeen(l, m) == IF cacheOK THEN local[l][m] ELSE Absent
+LocalSeen(l, m) == IF cacheOK /\ local[l][m].st # "blocked" THEN local[l][m] ELSE Absent
 Src(l, m, uc) ==
     IF ~uc THEN "parse"
     ELSE IF LocalSeen(l, m).st = "full" THEN "local"
@@ -103,7 +104,7 @@ HeadFail(l) == IF store[l].dmg["summary"] # "ok" THEN "summary"
 \* written and the cache dir is unusable.  Images before the failing one have been completed (index written).
 ImgFails(l, i, uc, cc) ==
     LET m == Images[i] IN
-    Src(l, m, uc) = "parse" /\ (store[l].dmg[m] # "ok" \/ (cc /\ ~cacheOK))
+    Src(l, m, uc) = "parse" /\ (store[l].dmg[m] # "ok" \/ (cc /\ (~cacheOK \/ local[l][m].st = "blocked")))
 FirstImgFail(l, uc, cc) ==
     IF \E i \in 1..K : ImgFails(l, i, uc, cc)
     THEN CHOOSE i \in 1..K : ImgFails(l, i, uc, cc) /\ \A j \in 1..(i - 1) : ~ImgFails(l, j, uc, cc)
@@ -183,7 +184,7 @@ Drop(t) ==
 \* always parses the image itself; writes next to the image, or into the given directory (the user's cache entry)
 Cli(l, m, r, target) ==
     /\ UseCli /\ ops < MaxOps
-    /\ LET ok == store[l].dmg[m] = "ok" /\ (target = "cachedir" => cacheOK)
+    /\ LET ok == store[l].dmg[m] = "ok" /\ (target = "cachedir" => cacheOK /\ local[l][m].st # "blocked")
            \* (`cache root` must be an existing directory: the user passes the hashed entry of the product)
        IN /\ IF ok /\ target = "adjacent"
              THEN adjacent' = [adjacent EXCEPT ![l][m] = FullOf(store[l].ver)] /\ UNCHANGED local
@@ -216,11 +217,11 @@ Restore(l) ==
     /\ ops' = ops + 1
     /\ UNCHANGED <<local, adjacent, cacheOK, tree>>
 CellSet(l, m, which, c) ==
-    /\ EnvCaches /\ ops < MaxOps /\ c.st \in {"absent", "torn"}
+    /\ EnvCaches /\ ops < MaxOps /\ c.st \in {"absent", "torn", "blocked"} /\ (c.st = "blocked" => which = "local")
     /\ (which = "local" => cacheOK)
     /\ IF which = "local" THEN local' = [local EXCEPT ![l][m] = c] /\ UNCHANGED adjacent
        ELSE adjacent' = [adjacent EXCEPT ![l][m] = c] /\ UNCHANGED local
-    /\ last' = [op |-> IF c.st = "absent" THEN "delete" ELSE "tear", loc |-> l, img |-> m, cell |-> which]
+    /\ last' = [op |-> IF c.st = "absent" THEN "delete" ELSE IF c.st = "torn" THEN "tear" ELSE "block", loc |-> l, img |-> m, cell |-> which]
     /\ ops' = ops + 1
     /\ UNCHANGED <<store, cacheOK, tree>>
 \* the user clears the cache of one product (its hashed directory) or the whole cache directory (rm -rf ~/.cache/xarray-ceos-alos2,
@@ -244,7 +245,7 @@ Next == \/ \E l \in Locs, uc, cc \in BOOLEAN, r \in Rpcs, t \in Slots : Open(l, 
         \/ \E t \in Slots : Drop(t)
         \/ \E l \in Locs, m \in ImageSet, r \in Rpcs, tg \in {"adjacent", "cachedir"} : Cli(l, m, r, tg)
         \/ \E l \in Locs : (\E v \in Versions : Redeliver(l, v)) \/ Restore(l) \/ \E f \in Files, h \in {"missing", "cut"} : Damage(l, f, h)
-        \/ \E l \in Locs, m \in ImageSet, w \in {"local", "adjacent"}, c \in {Absent, Torn} : CellSet(l, m, w, c)
+        \/ \E l \in Locs, m \in ImageSet, w \in {"local", "adjacent"}, c \in {Absent, Torn, Blocked} : CellSet(l, m, w, c)
         \/ \E ok \in BOOLEAN : CacheDir(ok)
         \/ \E sc \in Locs \cup {"all"} : Purge(sc)
 
@@ -252,7 +253,7 @@ Spec == Init /\ [][Next]_vars
 
 \* ------------------------------------------------------------------ what the design guarantees (checked by TLC)
 TypeOK == /\ \A l \in Locs : store[l].ver \in Versions
-          /\ \A l \in Locs, m \in ImageSet : local[l][m].st \in {"absent", "torn", "full"} /\ adjacent[l][m].st \in {"absent", "torn", "full"}
+          /\ \A l \in Locs, m \in ImageSet : local[l][m].st \in {"absent", "torn", "full", "blocked"} /\ adjacent[l][m].st \in {"absent", "torn", "full"}
           /\ ops \in 0..MaxOps
 \* C18: a tree is only returned when summary, VOL and LED are intact and every image that was parsed is intact
 FailStop == last.op = "open" /\ last.outcome = "tree" =>
@@ -261,7 +262,8 @@ FailStop == last.op = "open" /\ last.outcome = "tree" =>
 \* C18: a missing file is reported as an OSError-like error
 MissingIsOSError == last.op = "open" /\ last.outcome = "error" => \E f \in Files \ {"trl"} : store[last.loc].dmg[f] = "cut"
 \* C18 / C13: the trailer never matters
-TrailerIrrelevant == last.op = "open" /\ (\A f \in Files \ {"trl"} : store[last.loc].dmg[f] = "ok") /\ (last.cc => cacheOK)
+TrailerIrrelevant == last.op = "open" /\ (\A f \in Files \ {"trl"} : store[last.loc].dmg[f] = "ok")
+                        /\ (last.cc => cacheOK /\ \A m \in ImageSet : local[last.loc][m].st # "blocked")
                         => last.outcome = "tree"
 \* C07: use_cache = FALSE never consults a cache, and always yields the current version
 NoConsultWhenDisabled == last.op = "open" /\ ~last.uc /\ last.outcome = "tree" =>
@@ -277,7 +279,7 @@ RepairAfterCreate == last.op = "open" /\ last.cc /\ last.outcome = "tree" =>
 WritesOnlyWhenAsked == [][\A l \in Locs, m \in ImageSet :
        /\ (adjacent'[l][m] # adjacent[l][m] => last'.op \in {"cli", "delete", "tear"})
        /\ (local'[l][m] # local[l][m] =>
-              (last'.op \in {"cli", "delete", "tear", "purge"}) \/ (last'.op = "open" /\ last'.cc /\ local'[l][m] = FullOf(store[l].ver)))]_vars
+              (last'.op \in {"cli", "delete", "tear", "purge", "block"}) \/ (last'.op = "open" /\ last'.cc /\ local'[l][m] = FullOf(store[l].ver)))]_vars
 \* C10 / C16 / C13: a judged open returns the current version of everything, whatever happened before
 JudgedIsCurrent == last.op = "open" /\ last.outcome = "tree" /\ last.judged /\ (\A l \in Locs, m \in ImageSet : local[l][m].asked /\ adjacent[l][m].asked)
                        => \A m \in ImageSet : last.cver[m] = last.ver
